@@ -27,7 +27,20 @@ def run(ctx):
     cases = []
     for declared, asrole in (("root", "key_mgr"), ("key_mgr", "root"), ("root", "pkg_mgr"), ("key_mgr", "pkg_mgr"), ("key_mgr", "Key_mgr")):
         for ver in (1, 4):
-            signed = M.md(declared, ver, {"root": M.delegation((1,), 1)} if declared == "root" else {})
+          dl0 = {"root": M.delegation((1,), 1)} if declared == "root" else {}
+          # the plain document, then unusual spellings the documented schema still admits
+          variants = [M.md(declared, ver, dl0)]
+          if ver == 1:
+              variants += [M.md(declared, ver, dl0, expiration="2030-1-05T00:00:00Z"), M.md(declared, ver, dl0, timestamp="2020-1-1T0:0:0Z"),
+                           M.md(declared, ver, dl0, expiration="2030-01-01t00:00:00z"), M.md(declared, ver, dl0, timestamp="２０２０-01-01T00:00:00Z"),
+                           M.md(declared, True, dl0), M.md(declared, 2.0, dl0), M.md(declared, ver, dl0, timestamp=Ellipsis),
+                           M.md(declared, ver, dl0, extra_field={"x": [1, None]}), M.md(declared, ver, dl0, spec=""),
+                           M.md(declared, ver, dict(dl0, **{"é": M.delegation((), 7.0), "": M.delegation((0, 1, 2, 3), True)})),
+                           M.md(declared, 2 ** 80, dl0, expiration="9999-12-31T23:59:59Z")]
+              if declared != "root":
+                  variants.append(M.md(declared, Ellipsis, dl0))
+          for signed in variants:
+            assert M.signed_ok(signed), signed
             for gpg in (False, True):
                 base = M.envelope(signed, (0, 1), mode="gpg" if gpg else "raw")
                 for dec in decorations:
